@@ -72,6 +72,10 @@ func runC13(c *Checker) {
 	// a keepalive that is never evaluated detects nothing: the send and receive goroutines must
 	// not be able to deadlock each other (C18 LOCKORD/RACE/CLOSE, imported)
 	importLayers(c, "C18")
+	// a ping is answered through the ordinary ACK/NACK machinery (a resent ping arrives out of
+	// sequence and its answer is a NACK): the obligations of C06 about what the receive loop
+	// answers and when are part of "a live peer that answers is never closed"
+	importLayers(c, "C06")
 	// "a connection whose peer answers is never closed by keepalive, however long it stays idle":
 	// the receive loop keeps consuming (and ACKing) the peer's pings only if it never has to hand
 	// them to an application that may not be in Recv
@@ -816,5 +820,63 @@ func ruleKA(c *Checker) {
 		}
 		c.decide(okCopy, "KA-5", "mailbox."+side.refresh+"|options carried over", rf.Pos(), "gbnOptions are copied from the previous connection", "a refreshed connection loses the gbn options (keepalive off after the first reconnect)")
 	}
-	c.floor("KA-5", 10)
+	// the option stores what it is given: WithKeepalivePing(ping, pong) puts ping into pingTime and
+	// pong into pongTime, unconditionally and unmodified - "for all ping/pong settings" includes a
+	// pong timeout longer than the ping interval, which the send loop supports on purpose (fix ccab75b)
+	if opt := w.Func("gbn.WithKeepalivePing"); opt == nil || len(opt.AnonFuncs) != 1 {
+		c.anchorFail("gbn.WithKeepalivePing (one closure)")
+	} else {
+		cl := opt.AnonFuncs[0]
+		for i, fname := range []string{"pingTime", "pongTime"} {
+			fld := w.Field("gbn.TimeoutManager." + fname)
+			okk, why, n := false, "no store", 0
+			allInstrs(cl, func(in ssa.Instruction) {
+				st, isSt := in.(*ssa.Store)
+				if !isSt {
+					return
+				}
+				fa, isFA := st.Addr.(*ssa.FieldAddr)
+				if !isFA || fld == nil || structFieldOf(fa) != fld {
+					return
+				}
+				n++
+				if len(factsAt(st.Block())) != 0 {
+					why = "the store is conditional"
+					return
+				}
+				v := st.Val
+				if u, isU := v.(*ssa.UnOp); isU && u.Op == token.MUL {
+					if fv, isFV := u.X.(*ssa.FreeVar); isFV {
+						for _, r := range *fv.Referrers() {
+							if st2, isSt2 := r.(*ssa.Store); isSt2 && st2.Addr == ssa.Value(fv) {
+								why = "the closure reassigns the captured " + fv.Name() + " before storing it"
+								return
+							}
+						}
+						b, stored := freeVarBinding(fv)
+						if p, isP := stored.(*ssa.Parameter); isP && i < len(opt.Params) && p == opt.Params[i] {
+							okk = true
+							return
+						}
+						if p, isP := b.(*ssa.Parameter); isP && i < len(opt.Params) && p == opt.Params[i] {
+							okk = true
+							return
+						}
+					}
+				}
+				if fv, isFV := v.(*ssa.FreeVar); isFV {
+					if b, _ := freeVarBinding(fv); b != nil {
+						if p, isP := b.(*ssa.Parameter); isP && i < len(opt.Params) && p == opt.Params[i] {
+							okk = true
+							return
+						}
+					}
+				}
+				why = "the stored value is " + w.canonFB(v) + ", not the option's argument as given"
+			})
+			c.decide(okk && n == 1, "KA-5", "WithKeepalivePing|"+fname+" is the argument as given", cl.Pos(), fname+" = the option's parameter, unconditionally",
+				"WithKeepalivePing does not store its "+fname[:4]+" argument as given ("+why+fmt.Sprintf("; %d stores", n)+"): a configured keepalive setting is silently changed")
+		}
+	}
+	c.floor("KA-5", 12)
 }
